@@ -549,7 +549,7 @@ impl FallbackHelper for i128 {
 
     #[inline]
     fn shift_lo_up(self) -> i128 {
-        debug_assert!(self >> 64 == 0);
+        debug_assert!(self >> 64 == 0 || self >> 64 == -1);
         self << 64
     }
 
